@@ -226,8 +226,15 @@ func literalFor(t string) string {
 		return `"lit  x"`
 	case "bool":
 		return "true"
+	case "interface{}", "[]int", "[]string", "*int", "*string", "*Inner", "map[string]int", "chan int", "func()", "Namer", "[]byte",
+		"[]Inner", "[]*Inner", "[]interface{}", "Names", "*ext.Pub", "**int", "[]MyInt", "[]ext.Pub", "[]ext.Kind", "*Inner2":
+		return "nil"
+	case "Inner":
+		return "Inner{X: 1}"
+	case "time.Time":
+		return "time.Time{}"
 	}
-	return "nil"
+	return ""
 }
 
 type gMethod struct {
@@ -506,7 +513,12 @@ func (g *gen) genMethod(idx int, decl *strings.Builder, profile string) gMethod 
 			case 1:
 				add(" :map %s %s", g.pick(sps), v)
 			case 2:
-				add(" :literal %s %s", v, literalFor(typeOfField(df, v)))
+				if lit := literalFor(typeOfField(df, v)); lit != "" && typeOfField(df, v) != "int" || true {
+					if lit == "" {
+						lit = "0"
+					}
+					add(" :literal %s %s", v, lit)
+				}
 			case 3:
 				add(" :skip /^%s$/", v)
 			default:
@@ -620,8 +632,14 @@ func (g *gen) genMethod(idx int, decl *strings.Builder, profile string) gMethod 
 	// literal
 	if g.chance(0.2) && len(dps) > 0 {
 		dp := g.pick(dps)
-		add(" :literal %s %s", dp, literalFor(typeOfField(df, strings.Split(dp, ".")[0])))
-		g.feat(":literal")
+		lit := literalFor(typeOfField(df, strings.Split(dp, ".")[0]))
+		if strings.Contains(dp, ".") {
+			lit = "" // nested member: its type is not tracked by the generator
+		}
+		if lit != "" {
+			add(" :literal %s %s", dp, lit)
+			g.feat(":literal")
+		}
 	}
 	// hooks
 	for _, hk := range []string{"preprocess", "postprocess"} {
